@@ -103,7 +103,7 @@ Section O14.
                match alookup k d with
                | None => true
                | Some y =>
-                   if py_eq x y then true
+                   if py_eq y x then true           (* `dst[key] == value` *)
                    else if is_obj x && is_obj y
                         then only_selected ks (prefix ++ k ++ [DOT]) x y
                                            (match jget k dv' with Some y' => y' | None => JNull end)
@@ -124,7 +124,7 @@ Section O14.
            | (k, x) :: l' =>
                match alookup k d with
                | None => false
-               | Some y => if py_eq x y then false
+               | Some y => if py_eq y x then false
                            else if is_obj x && is_obj y then has_conflict x y else true
                end || go l'
            end) s
@@ -140,8 +140,10 @@ Section O14.
             || negb (has_conflict (JObj s) (JObj d))
             || node_eqb frepr (alookup fn dd) (alookup fn dd'))
     | DS_update =>
+        (* "overwrites": the destination value equals (Python ==) the source value afterwards; equal documents
+           are not touched at all, so 1 is not replaced by 1.0 *)
         negb (is_none (ob_exn o))
-        || forallb (fun kx => match alookup (fst kx) d' with Some x' => json_eqb (snd kx) x' | None => false end) s
+        || forallb (fun kx => match alookup (fst kx) d' with Some x' => py_eq (snd kx) x' | None => false end) s
     | DS_nosync => node_eqb frepr (alookup fn dd) (alookup fn dd')
     | DS_copy => true
     end.
